@@ -356,7 +356,7 @@ example :
 
 /-- Sync, outside the periodic-sync interval (so that reads pile up in the queue): two
 inserts, a maintenance run (which switches the sketch on), three lookups. -/
-def exS : List Op := [.adv 600000000, .ins 1 10, .ins 2 20, .sync, .get 1, .get 1, .get 3]
+def exS : List Op := [.adv Gen.PAST_SYNC_INTERVAL_NS, .ins 1 10, .ins 2 20, .sync, .get 1, .get 1, .get 3]
 
 /-- Sync: the three reads are queued (two hits of key 1, a miss of key 3), not yet recorded;
 an insert, `contains_key`, iteration, `invalidate`, `invalidate_all` queue no read and change
@@ -390,7 +390,7 @@ example :
 switches it on (128 words, every estimate 0); the read queued before is applied to the empty
 sketch in that very run, i.e. not recorded. -/
 example :
-    let s := stateAfter exP {} [.adv 600000000, .get 1, .ins 1 10, .ins 2 20]
+    let s := stateAfter exP {} [.adv Gen.PAST_SYNC_INTERVAL_NS, .get 1, .ins 1 10, .ins 2 20]
     let s' := (step exP s .sync).1
     s.skOn = false ∧ s.sk = {} ∧ s.readQ.map ROp.hash = [exP.hash 1] ∧
     s'.skOn = true ∧ s'.sk = Sketch.init 128 ∧ s'.readQ = [] ∧
